@@ -294,8 +294,9 @@ def r4_csv(ctx):
                 if isinstance(src, ast.Name):
                     return any("['num-unnum-hop']['node-id']" in ast.unparse(c) for c in calls_to(jp, {'append'})
                                if ast.unparse(c.func.value) == src.id) or \
-                        any(isinstance(v, ast.ListComp) and "['num-unnum-hop']['node-id']" in ast.unparse(v.elt) for _, v in jdefs.get(src.id, []))
-                return isinstance(src, ast.ListComp) and "['num-unnum-hop']['node-id']" in ast.unparse(src.elt)
+                        any(isinstance(v, (ast.ListComp, ast.GeneratorExp)) and "['num-unnum-hop']['node-id']" in ast.unparse(v.elt)
+                            for _, v in jdefs.get(src.id, []))
+                return isinstance(src, (ast.ListComp, ast.GeneratorExp)) and "['num-unnum-hop']['node-id']" in ast.unparse(src.elt)
             hops = [nm for nm, src in joins.items() if is_hops(src)]
             labs = [nm for nm in joins if nm not in hops]
             ok = len(hops) == 1 and len(labs) == 1
